@@ -422,6 +422,11 @@ def mfm_decoder_jobs(Job, cfg=CFG_NDEBUG, tier="quick"):
         c2 = (cfg[0] + "_stride%d" % stride, list(cfg[1]) + ["VERIF_STRIDE=%d" % stride, "VERIF_TRACK_UNBOUNDED"] + os.environ.get("VERIF_XDEF", "").split())
         js += [track_J(Job, c2, "bitstream_scan_for", "h_scan_for", ["BitStream_scan_for"], tier, replace=["BitStream_raw_pos", "BitStream_rawbit"], loops=True),
                track_J(Job, (c2[0], c2[1] + ["CRC_MAXLEN=1035"]), "copy_mfm_bytes", "h_copy_mfm", ["copy_mfm_bytes"], tier, replace=["mfm_read_byte"], loops=True, cover=True, solver="portfolio", timeout=1200)]
+    for stride in (1, 2):
+        c3 = (cfg[0] + "_stride%d" % stride, list(cfg[1]) + ["VERIF_STRIDE=%d" % stride, "VERIF_TRACK_UNBOUNDED", "VERIF_MFM_STATE_MACHINE", "VERIF_CRC_ABSTRACT", "CRC_MAXLEN=1035"])
+        js.append(Job("D_decode_mfm_track_%s" % c3[0], "harness/dfs_track.c", "h_decode_mfm", enforce=["decode_mfm_track"],
+                      replace=["BitStream_size", "BitStream_scan_for", "copy_mfm_bytes", "check_crc_with_a1s", "decode_sector_address_and_size"],
+                      loops=True, defines=c3[1], extract=ext(TRACK_GROUP + ["decode_mfm_track"]), tier=tier, cover=True, solver="portfolio", timeout=1200))
     for n, t in ((27, tier), (264, "thorough")):
         c2 = (cfg[0] + "_max%d" % n, list(cfg[1]) + ["CRC_MAXLEN=%d" % n])
         js.append(track_J(Job, c2, "check_crc_with_a1s", "h_check_crc", ["check_crc_with_a1s"], t, replace=["CRC16Base_update", "CRC16Base_get", "CCITT_CRC16_init"],
